@@ -85,7 +85,7 @@ def corpus():
 
 def run(ctx):
     rng, tier = ctx["rng"], ctx["tier"]
-    n = 60 if tier == "quick" else 1200
+    n = int((60 if tier == "quick" else 1200) * ctx.get("mult", 1))
     hashseeds = [0, 1] if tier == "quick" else [0, 1, 2, 3]
     if ctx.get("replay"):
         cases = [f["case"] for f in ctx["replay"]["failing"] if "case" in f]
